@@ -291,6 +291,7 @@ func runC08(c *Ctx) {
 	jsonControlBound(c)
 	nilListIsNullOnly(c)
 	layoutAgreement(c)
+	genRound2(c)
 	encodeErrorsKept(c)
 
 	// ---------------------------------------------------------------------------------------------
